@@ -16,6 +16,10 @@ extern crate uuid;
 
 mod internal;
 
+#[cfg(msi_verif)]
+#[doc(hidden)]
+pub mod verif_hooks;
+
 pub use crate::internal::category::Category;
 pub use crate::internal::codepage::CodePage;
 pub use crate::internal::column::{Column, ColumnBuilder, ColumnType};
